@@ -115,7 +115,9 @@ def h_monotone(ctx, cls, n, n_nan, ypat, params, encoding="free"):
 RENAMES = {
     "qual": (["a", "b", "c", "d"], ["k1", "k2", "k3", "k4"]),          # order-preserving bijection
     "qual_case": (["B", "a", "c", "d"], ["Q", "q1", "q2", "q3"]),    # upper-case sorts first in both
-    "ord": (["m", "c", "x", "a"], ["t2", "t1", "t3", "t0"]),          # ranking m<c<x<a, renamed consistently (lexicographic order preserved)
+    "ord": (["m", "c", "x", "a"], ["t2", "t1", "t3", "t0"]),
+    # numeric codes held as floats: renamed by +1200000 (same order of the codes and of their string forms; 7 significant digits)
+    "qual_float": ([1.0, 2.0, 3.0, 4.0], [1200001.0, 1200002.0, 1200003.0, 1200004.0]),          # ranking m<c<x<a, renamed consistently (lexicographic order preserved)
 }
 
 
@@ -205,7 +207,7 @@ def obligations(tier):
             for sizes in ([(3, 3, 2)] if quick else [(3, 3, 2), (2, 2, 2, 2), (4, 1, 3)]):
                 ren_jobs.append(dict(cls=cls, kind=kind, sizes=sizes, params=dict(min_freq=0.2, sort_by="cramerv", max_n_mod=3, output_dtype="str", dropna=True)))
                 for perm in (("reverse", "interleave") if quick else ("reverse", "interleave", "rotate")):
-                    if kind != "qual_case":
+                    if kind not in ("qual_case", "qual_float"):
                         ren_jobs.append(dict(cls=cls, kind=kind, sizes=sizes, params=dict(min_freq=0.2, sort_by="cramerv", max_n_mod=3 if perm != "interleave" else 2, output_dtype="str", dropna=True), perm=perm, rename=False))
     return [
         k_quantiles.obligation(tier, {"C11"}, "O11.1a find_quantiles: every row falls in the same bucket after any strictly increasing re-encoding; boundaries do not depend on row order", ["iso", "perm"]),
